@@ -92,6 +92,9 @@ class Oracle(object):
     if via == "indices" and (h.pre is None or h.pre_data != op["data"]):
       via = "formed"
     args = list(fit_args(h.name, Dp, via, op.get("y_kind", "full")))
+    if op.get("variant"):
+      from ..machine import apply_variant_args
+      args = apply_variant_args(args, op["variant"], via)
     kwargs = {}
     ex = op.get("extras", {})
     from ..estimators import make_array
@@ -335,7 +338,7 @@ def gen_plan(seed, tier):
   # unknown=True: refits of supervised learners alternate between the full
   # and the partially unknown label vector on the same points
   return gen_history(seed, tier, fresh_p=0.004 if tier == "thorough" else 0.003,
-                     weights=dict(fault=3, interrupt=6), unknown=True, wide_p=0.03, crash_sweep_p=0.08)
+                     weights=dict(fault=3, interrupt=6), unknown=True, wide_p=0.03, crash_sweep_p=0.08, buffer_p=0.3)
 
 
 def run_plan(plan):
